@@ -35,6 +35,11 @@ pub struct DiskCtl {
     /// write-back error once and marks the pages clean: a later successful sync does not make them durable
     /// ("fsyncgate"). At a power loss these ranges read as zeros.
     pub poisoned: Vec<(std::path::PathBuf, u64, u64)>,
+    /// power-loss mode, strict directory durability: a newly created file exists after a power loss only if its
+    /// directory was fsynced after the creation (POSIX promises nothing else; fsync of the file itself is about its
+    /// data). Files created and not yet covered by a directory sync:
+    pub dir_durability: bool,
+    pub new_files: std::collections::BTreeSet<std::path::PathBuf>,
 }
 
 thread_local! {
@@ -61,6 +66,13 @@ pub fn apply_power_loss() {
     with(|d| {
         if !d.power_loss {
             return;
+        }
+        if d.dir_durability {
+            for f in std::mem::take(&mut d.new_files) {
+                if std::fs::remove_file(&f).is_ok() {
+                    sim::fault_fired("power_loss_new_file_without_dir_sync_vanished");
+                }
+            }
         }
         for (f, from, to) in d.poisoned.clone() {
             if let Ok(md) = std::fs::metadata(&f) {
@@ -103,6 +115,19 @@ pub fn install(node: u32) {
         *d = DiskCtl { node, ..Default::default() };
     });
     sim::set_fs_node(node);
+    sim::DIR_SYNC_HOOK.with(|h| {
+        *h.borrow_mut() = Some(Box::new(|dir: &std::path::Path| {
+            DISK.with(|d| {
+                let mut d = d.borrow_mut();
+                let before = d.new_files.len();
+                d.new_files.retain(|f| f.parent() != Some(dir));
+                if d.new_files.len() < before {
+                    sim::probe("dir-sync-made-new-file-durable");
+                }
+            });
+            sim::log(format!("DISK fsync(dir) {}", dir.file_name().map(|s| s.to_string_lossy().to_string()).unwrap_or_default()));
+        }));
+    });
     FS_HOOK.with(|h| {
         *h.borrow_mut() = Some(Box::new(|op: &str, path: &std::path::Path, len: usize| -> FsAction {
             let name = path.file_name().map(|s| s.to_string_lossy().to_string()).unwrap_or_default();
@@ -111,6 +136,9 @@ pub fn install(node: u32) {
                 d.ops += 1;
                 if name.starts_with("segment-") {
                     d.seen_files.insert(path.to_path_buf());
+                    if op == "open" && !path.exists() {
+                        d.new_files.insert(path.to_path_buf());
+                    }
                 }
                 // one-shot deterministic plans first
                 if let Some((k, n, arg)) = d.die_on.clone() {
